@@ -21,6 +21,9 @@ import (
 func TestMain(m *testing.M) {
 	vlib.InstallMetrics()
 	vlib.QuietKlog()
+	if err := vlib.InstallTestCA(); err != nil { // before any TLS use: the stub bastion's certificate must be a system root
+		panic(err)
+	}
 	initMetrics()
 	code := m.Run()
 	vlib.FlushStats()
